@@ -114,6 +114,39 @@ func HarnessReader() {
 	verif.Reach("reader-done")
 }
 
+// HarnessSlowProducer: the caller's reader delivers its bytes in two instalments with an
+// arbitrarily long pause in between (every timer the library armed may fire during it). The
+// handler still observes the whole byte sequence followed by end-of-file, and the call succeeds.
+func HarnessSlowProducer() {
+	h := &H{pattern: 0}
+	c, closer := setup(h)
+	defer closer()
+	p1 := verif.Bytes("p1", verif.Bound("L", 1))
+	p2 := verif.Bytes("p2", verif.Bound("L", 1))
+	pr, pw := io.Pipe()
+	resume := make(chan struct{})
+	go func() {
+		pw.Write(p1)
+		<-resume
+		pw.Write(p2)
+		pw.Close()
+	}()
+	ret := 0
+	var n int
+	var err error
+	go func() { n, err = c.Consume(context.Background(), pr); ret++ }()
+	verif.Quiesce() // the long pause: nothing moves until the producer resumes
+	verif.Assert(ret == 0, "call-waits-for-the-rest-of-the-stream")
+	close(resume)
+	verif.Quiesce()
+	verif.Assert(ret == 1 && err == nil, "call-succeeds-after-slow-stream")
+	want := string(p1) + string(p2)
+	verif.Assert(n == len(want) && string(h.got) == want, "handler-sees-all-bytes-of-a-slow-stream")
+	verif.Assert(h.other == 0, "no-spurious-read-error")
+	verif.Assert(verif.LeftoverLib() == 0, "upload-request-completes-after-consumption")
+	verif.Reach("slow-producer-done")
+}
+
 // HarnessCloseEarly: the handler closes the reader before consuming everything.
 func HarnessCloseEarly() {
 	h := &H{}
